@@ -234,6 +234,7 @@ package sql
 //@   decreases pmeasure(p) * 32 + 16
 //@   loop 1 invariant PL(p) && p.cur >= old(p.cur)
 //@   loop 1 invariant ret == nil || fresh(ret)
+//@   loop 1 invariant [list.maximal; C07 C10] len(ret) > 0 ==> curTokType(p) != COMMA
 //@   loop 1 decreases pmeasure(p)
 
 //@ func (p *Parser) OrCondition() (interface{}, error)
@@ -297,6 +298,7 @@ package sql
 //@   ensures[tl] PL(p) && p.cur >= old(p.cur)
 //@   decreases pmeasure(p) * 32 + 9
 //@   ensures[consumes] result0 ==> p.cur > old(p.cur)
+//@   ensures[notfound.kept; C07 C10] !result0 && err == nil ==> p.cur == old(p.cur)
 
 //@ func (p *Parser) SelectList() (SelectList, error)
 //@   props C09
